@@ -987,11 +987,11 @@ bn_digits_import_be_bin(bn_digit_t *a, size_t count,
 		return (EINVAL);
 	if ((count * BN_DIGIT_SIZE) < buf_size)
 		return (EOVERFLOW);
-	r_pos = (buf + (buf_size - 1));
+	r_pos = (buf + buf_size); /* One past: never step below buf. */
 	w_pos = (uint8_t*)a;
 	BN_PREFETCH_DIGITS(buf, count);
-	for (; r_pos >= buf; r_pos --, w_pos ++) {
-		(*w_pos) = (*r_pos);
+	for (; r_pos > buf; w_pos ++) {
+		(*w_pos) = (*(-- r_pos));
 	}
 	if (NULL == count_ret) {
 		memset(w_pos, 0x00, ((count * BN_DIGIT_SIZE) - buf_size));
@@ -1228,13 +1228,13 @@ bn_digits_import_be_hex(bn_digit_t *a, size_t count,
 		return (EINVAL);
 	if ((count * BN_DIGIT_SIZE) < (buf_size / 2))
 		return (EOVERFLOW);
-	r_pos = (buf + (buf_size - 1));
+	r_pos = (buf + buf_size); /* One past: never step below buf. */
 	w_pos = (uint8_t*)a;
 	w_pos_max = (w_pos + (count * BN_DIGIT_SIZE));
 
 	BN_PREFETCH_DIGITS(buf, count);
-	for (cnt = 0; r_pos >= buf; r_pos --) {
-		cur_char = (*r_pos);
+	for (cnt = 0; r_pos > buf;) {
+		cur_char = (*(-- r_pos));
 		if ('0' <= cur_char && '9' >= cur_char) {
 			cur_char -= '0';
 		} else if ('a' <= cur_char && 'f' >= cur_char) {
